@@ -90,7 +90,10 @@ PROPS = {
     },
     "C12": {
         "statement": "Scenario.C12_thread_local_last (order part); thread placement by the trace model",
-        "engines": [plan("tl,plan"), trace("tl,base,kf1", quick=60)],
+        "engines": [plan("tl,plan,kf1"), trace("tl,base,kf1", quick=60),
+                    # the async dispatcher: thread-local systems run inside `wait`, on the caller, once per wait
+                    {"engine": "asyncd", "args": {}, "quick": {"cases": 300}, "thorough": {"cases": 10000}}],
+        "also": {"C15": ["tl-count", "tl-outside-wait", "tl-thread", "tl-before-finish"]},
         "aspects": TRACE,
         "probes": [{"dir": "probes/not_send", "expect": "fail", "grep": "cannot be sent between threads safely", "why": "Dispatcher must not be Send (it may hold thread-local systems)"},
                    {"dir": "probes/send_ok", "expect": "compile", "why": "SendDispatcher must be Send"}],
@@ -98,8 +101,11 @@ PROPS = {
     },
     "C13": {
         "statement": "C13_setup_reaches / C13_dispose_reaches / C13_dispose_matches_setup (fan-out, any nesting depth), Scenario.C13_setup_dispose_once, C13_setup_preserves / _creates / _creates_only / _idempotent",
-        "engines": [{"engine": "lifecycle", "args": {}, "quick": {"cases": 200}, "thorough": {"cases": 20000}, "search": {"cases": 5000}}],
-        "aspects": ["lifecycle", "outcome"],
+        "engines": [{"engine": "lifecycle", "args": {}, "quick": {"cases": 200}, "thorough": {"cases": 20000}, "search": {"cases": 5000}},
+                    # setup of every provided / derived system-data type: the [setup] oracle of the sysdata engine
+                    {"engine": "sysdata", "args": {}, "quick": {"exhaust-upto": 6, "samples": 20, "pre-samples": 10}, "thorough": {"exhaust-upto": 8, "samples": 200, "pre-samples": 50}}],
+        "also": {"C06": ["[setup]"]},
+        "aspects": ["lifecycle", "outcome", "setup"],
         "assumptions": ["the world part of the theorems covers the controller data types the harness uses; every system-data type is C06's subject"],
     },
     "C14": {
@@ -110,14 +116,14 @@ PROPS = {
     },
     "C18": {
         "statement": "add_panics_iff / add_ok / resolve_error_iff",
-        "engines": [plan("malformed,funnel,plan")],
+        "engines": [plan("malformed,funnel,plan,funnel", quick=400, **{"max-n": 40})],
         "aspects": ["outcome"],
         "assumptions": ["panic payloads are compared as text (quoted name)"],
     },
     "C19": {
         "statement": "C19_layout_invariant (relabelled / permuted / duplicated declarations give identical executed and printed tables, for every registration sequence), C19_names_irrelevant, C19_insert_invariant",
-        "engines": [{"engine": "invariance", "args": {}, "quick": {"cases": 150}, "thorough": {"cases": 6000, "process-every": 25}},
-                    {"engine": "invariance", "args": {"process-every": 0}, "quick": {"cases": 60}, "thorough": {"cases": 2000}, "nopar": True},
+        "engines": [{"engine": "invariance", "args": {"dump-layouts": "/verif/evidence/.C19.layouts"}, "quick": {"cases": 300}, "thorough": {"cases": 6000, "process-every": 25}},
+                    {"engine": "invariance", "args": {"process-every": 0, "compare-layouts": "/verif/evidence/.C19.layouts"}, "quick": {"cases": 300}, "thorough": {"cases": 6000}, "nopar": True},
                     plan("plan,batch", quick=150)],
         "aspects": ["layout", "outcome", "debug"],
         "assumptions": ["ahash's per-process random state is what varies between processes"],
